@@ -122,6 +122,7 @@ structure Rt (k : Nat) (rc rp : Nat) (s t : State) : Prop where
   errS : s.err = none
   errT : t.err = none
   res : s.stack[rc]! = t.stack[rp]!
+  szT : t.stack.size = stackSize
 
 variable {bp k d H N : Nat} {a : Int}
 
@@ -131,23 +132,25 @@ theorem sh_rt_stackSet (i j : Int) (v : V) :
   intro s t h x s' y t' h1 h2
   obtain ⟨_, hi, rfl⟩ := stackSet_inv _ _ _ _ _ h1
   obtain ⟨_, hj, rfl⟩ := stackSet_inv _ _ _ _ _ h2
-  refine ⟨trivial, ⟨h.heap, h.globals, h.modules, by have := h.fiS; show s.frameIndex = 1; omega, by have := h.fiT; show t.frameIndex = (k : Int) + 1; omega, h.errS, h.errT, ?_⟩⟩
-  show (s.stack.set! i.toNat v)[i.toNat]! = (t.stack.set! j.toNat v)[j.toNat]!
-  rw [getElem!_set!, getElem!_set!, h.shapeS.stack, h.shapeT.stack]
-  have c1 : i.toNat = i.toNat ∧ i.toNat < stackSize := ⟨rfl, by omega⟩
-  have c2 : j.toNat = j.toNat ∧ j.toNat < stackSize := ⟨rfl, by omega⟩
-  rw [if_pos c1, if_pos c2]
+  refine ⟨trivial, ⟨h.heap, h.globals, h.modules, by have := h.fiS; show s.frameIndex = 1; omega, by have := h.fiT; show t.frameIndex = (k : Int) + 1; omega, h.errS, h.errT, ?_, ?_⟩⟩
+  · show (s.stack.set! i.toNat v)[i.toNat]! = (t.stack.set! j.toNat v)[j.toNat]!
+    rw [getElem!_set!, getElem!_set!, h.shapeS.stack, h.shapeT.stack]
+    have c1 : i.toNat = i.toNat ∧ i.toNat < stackSize := ⟨rfl, by omega⟩
+    have c2 : j.toNat = j.toNat ∧ j.toNat < stackSize := ⟨rfl, by omega⟩
+    rw [if_pos c1, if_pos c2]
+  · show (t.stack.set! j.toNat v).size = stackSize
+    simp [Array.set!_eq_setIfInBounds, h.shapeT.stack]
 
 theorem rt_clearDown (rc rp : Nat) (h1 l1 h2 l2 : Int) (hc : (rc : Int) < l1) (hp : (rp : Int) < l2) :
     RelS (Rt k rc rp) (PQ (fun _ _ => True) (Rt k rc rp)) (clearDown h1 l1) (clearDown h2 l2) := by
   intro s t h x s' y t' e1 e2
   obtain ⟨a1, _, a3⟩ := clearDown_inv _ _ _ _ _ e1
-  obtain ⟨b1, _, b3⟩ := clearDown_inv _ _ _ _ _ e2
+  obtain ⟨b1, b2, b3⟩ := clearDown_inv _ _ _ _ _ e2
   refine ⟨trivial, ?_⟩
   rw [a1, b1]
   exact ⟨h.heap, h.globals, h.modules, h.fiS, h.fiT, h.errS, h.errT, by
     show s'.stack[rc]! = t'.stack[rp]!
-    rw [a3 rc hc, b3 rp hp]; exact h.res⟩
+    rw [a3 rc hc, b3 rp hp]; exact h.res, by show t'.stack.size = stackSize; rw [b2]; exact h.szT⟩
 
 /-! ### back to the caller's frame (parent only) -/
 
@@ -193,7 +196,7 @@ theorem retUp_inv (fi : Int) (t t' : State) (r : Ctl) (h : exec (retUp fi) t = (
 def RetQ (bp k : Nat) (r r' : Ctl) (s' t' : State) : Prop :=
   r = .ret ∧ r' = .next ∧ s'.heap = t'.heap ∧ s'.globals = t'.globals ∧ s'.modules = t'.modules ∧
   s'.err = none ∧ t'.err = none ∧ s'.frameIndex = 1 ∧ t'.frameIndex = k ∧ t'.sp = bp ∧ 1 ≤ s'.sp ∧
-  s'.stack[(s'.sp - 1).toNat]! = t'.stack[(t'.sp - 1).toNat]!
+  s'.stack[(s'.sp - 1).toNat]! = t'.stack[(t'.sp - 1).toNat]! ∧ t'.stack.size = stackSize
 
 /-- everything of RETURN after the result slot is written -/
 def retRest (hi b : Int) : M Ctl := do
@@ -221,7 +224,7 @@ theorem rel_retRest (hk : 1 ≤ k) (hbp : 1 ≤ bp) (c hi hi' : Int) (hc : 1 ≤
   simp only [exec_pure, Prod.mk.injEq, Except.ok.injEq] at h1
   obtain ⟨rfl, rfl⟩ := h1
   obtain ⟨q1, q2, q3, q4, q5, q6, q7, q8, q9⟩ := retUp_inv _ _ _ _ h2
-  refine ⟨rfl, q1, ?_, ?_, ?_, h.errS, ?_, h.fiS, ?_, ?_, hc, ?_⟩
+  refine ⟨rfl, q1, ?_, ?_, ?_, h.errS, ?_, h.fiS, ?_, ?_, hc, ?_, ?_⟩
   · rw [q2]; exact h.heap
   · rw [q3]; exact h.globals
   · rw [q4]; exact h.modules
@@ -229,6 +232,7 @@ theorem rel_retRest (hk : 1 ≤ k) (hbp : 1 ≤ bp) (c hi hi' : Int) (hc : 1 ≤
   · rw [q8]; show t.frameIndex - 1 = k; rw [h.fiT]; omega
   · rw [q7]
   · rw [q6, q7]; exact h.res
+  · rw [q6]; exact h.szT
 
 theorem sh_curFrame0 :
     RelS (Sh bp k 0 H N a) (PQ (fun f g => FrameSh bp H f g ∧ f.bp = 0) (Sh bp k 0 H N a)) curFrame curFrame :=
